@@ -23,15 +23,22 @@ STREAM_ASSUME = [
 
 CHECKS = {
     "C01": dict(
-        bins=["fuzz_stream", "sreplay", "c02", "c07"], replay_bin="sreplay", replay_args=[], replay_route=[("c02 ", "c02", ["--mode", "c01"]), ("c07 ", "c07", ["--mode", "c01"])],
+        bins=["fuzz_stream", "sreplay", "c02", "c07", "c11", "c12", "c13", "c14", "c15", "c17"], replay_bin="sreplay", replay_args=[], replay_route=[("c02 ", "c02", ["--mode", "c01"]), ("c07 ", "c07", ["--mode", "c01"])],
         campaigns=lambda tier, seed: [dict(name="generated_exchanges", bin="c02", shards=16, timeout=3000, args=["--mode", "c01"]),
-                                      dict(name="coded_bodies", bin="c07", shards=16, timeout=3000, args=["--mode", "c01"])] + _fuzz("C01", "")(tier, seed), level="exploration",
+                                      dict(name="coded_bodies", bin="c07", shards=16, timeout=3000, args=["--mode", "c01"]),
+                                      dict(name="path_decoders", bin="c12", shards=16, timeout=3000, args=["--mode", "c01"]),
+                                      dict(name="uri_splitting", bin="c13", shards=16, timeout=3000, args=["--mode", "c01"]),
+                                      dict(name="multipart", bin="c14", shards=16, timeout=3000, args=["--mode", "c01"]),
+                                      dict(name="urlencoded", bin="c15", shards=16, timeout=3000, args=["--mode", "c01"]),
+                                      dict(name="primitives", bin="c17", shards=16, timeout=3000, args=["--mode", "c01"]),
+                                      dict(name="indicators", bin="c11", shards=16, timeout=3000, args=["--mode", "c01"])] + _fuzz("C01", "")(tier, seed), level="exploration",
         prepare="seeds",
         rule=("coverage-guided histories decoded structure-aware (config x callback plan x two byte streams x op schedule incl. gaps, "
               "close, tx destruction between calls, tx_freed) run under ASan+UBSan+LSan with exact-size chunk copies freed after each call; "
               "non-trivial = history with >=2 data calls in which a REQUEST_HEADERS or RESPONSE_HEADERS callback fired; distinct by input hash "
               "(capped at 400k per worker, so counted conservatively). Two structured campaigns run under the same sanitizers with their semantic oracles switched off "
-              "(--mode c01): the C02 exchange generator (cookies, Basic with and without padding, Digest, folding, trailers, all chunkers) and the C07 coded-body generator"),
+              "(--mode c01): the C02 exchange generator (cookies, Basic with and without padding, Digest, folding, trailers, all chunkers), the C07 coded-body generator, "
+              "and the enumerators / generators of C11 C12 C13 C14 C15 C17 (path and URL decoders, URI splitting, multipart, urlencoded, containers and primitives)"),
         assumptions=STREAM_ASSUME,
     ),
     "C02": dict(
@@ -74,7 +81,9 @@ CHECKS = {
         prepare="seeds",
         rule=("coverage-guided histories (as C01, but following the documented DATA_OTHER hand-over and without data after close) with a per-transaction "
               "lifecycle automaton evaluated on every callback: phase order per side, monotone progress (100-continue restart excepted), "
-              "request/response/transaction complete at most once, transaction-complete only after both sides, nothing after it; non-trivial = "
+              "request/response/transaction complete at most once, transaction-complete only after both sides, nothing after it. Structured campaigns under the same "
+              "monitor: coded bodies (c07), tagged pipelines under legal interleavings with callbacks returning STOP/ERROR/DECLINED at generated invocations and 102/103 "
+              "responses (c04), CONNECT/Upgrade scenarios (c16); non-trivial = "
               "history with a completed transaction and at least one of {callback returned non-OK, close, a call returned something other than DATA}"),
         assumptions=STREAM_ASSUME + ["the caller follows the DATA_OTHER hand-over protocol and offers no data after closing a direction"],
     ),
